@@ -1010,6 +1010,36 @@ def thunk_body(an: Analysis, fn: FunctionInfo, expr, depth: int = 3):
     return body
 
 
+def is_source_node(tree, node) -> bool:
+    """``tree`` (an expanded copy made by value_expr) is the source expression ``node``"""
+    return type(tree) is type(node) and \
+        getattr(tree, 'lineno', None) == node.lineno and \
+        getattr(tree, 'col_offset', None) == node.col_offset and \
+        getattr(tree, 'end_col_offset', None) == node.end_col_offset and \
+        getattr(tree, 'end_lineno', None) == node.end_lineno and \
+        (not isinstance(node, ast.Call) or ast.dump(tree.func) == ast.dump(node.func))
+
+
+def private_closure(an: Analysis, cls_qn: str, entries) -> set:
+    """``entries`` (method names of a class) plus the private methods of that class whose
+    every call site lies in a function of the closure: stages split off an entry point"""
+    closure = set(entries)
+    info = an.p.classes[cls_qn]
+    changed = True
+    while changed:
+        changed = False
+        for name, method in info.methods.items():
+            if name in closure or not name.startswith('_') or \
+                    (name.startswith('__') and name.endswith('__')):
+                continue
+            sites = call_sites_of(an, method.qn)
+            if sites and all(caller.cls is not None and caller.cls.qn == cls_qn
+                             and caller.name in closure for caller, _n, _f in sites):
+                closure.add(name)
+                changed = True
+    return closure
+
+
 def origin(path: Path, index: int, expr):
     """(expanded text, position of the store that created the value | None): two
     expressions with the same origin denote the very same object on this path"""
